@@ -27,7 +27,7 @@ func RunEngine(p *Prog, observers ...Observer) *Engine {
 			}
 			inner := eng.changed
 			eng.changed = outer || inner
-			if !inner || eng.final {
+			if !inner {
 				break
 			}
 		}
@@ -45,8 +45,14 @@ func RunEngine(p *Prog, observers ...Observer) *Engine {
 		}
 		runRecs()
 	}
+	// every round records; the records of the first round that changes nothing are the result
+	eng.final = true
 	for eng.rounds = 1; eng.rounds <= 30; eng.rounds++ {
 		eng.changed = false
+		eng.derefs = map[ssa.Instruction]*DerefRec{}
+		eng.visits = map[ssa.Instruction]int{}
+		eng.fnVisits = map[*ssa.Function]int{}
+		eng.retRecs = map[*ssa.Return]map[string]bool{}
 		round()
 		if !eng.changed {
 			break
@@ -54,15 +60,6 @@ func RunEngine(p *Prog, observers ...Observer) *Engine {
 	}
 	if eng.changed {
 		eng.note("global fixpoint not reached in 30 rounds")
-	}
-	eng.final = true
-	eng.derefs = map[ssa.Instruction]*DerefRec{}
-	eng.visits = map[ssa.Instruction]int{}
-	eng.fnVisits = map[*ssa.Function]int{}
-	eng.changed = false
-	round()
-	if eng.changed {
-		eng.note("state changed during the recording round (not a fixpoint)")
 	}
 	return eng
 }
